@@ -4,7 +4,7 @@
     examples.
 
     PARTIAL: the theorems cover the CORE sub-grammar of [Doc/DocGrammar.v]
-    (stages (a)-(c) of the plan), for ALL documents of that grammar
+    (stages (a)-(c) of the plan and the comments of stage (d)), for ALL documents of that grammar
     (unbounded depth and size) and ALL contexts:
 
       item ::= Text ws cs          whitespace, then a non-empty run of inert characters
@@ -17,9 +17,11 @@
                                    (only where the parsing state is not in math mode)
       doc  ::= item* tr            (tr: whitespace before the end of input)
 
+             | Cmt ws text post    ws % text post   (text without newline; post = the newline and the
+                                   whitespace after it)
     with [ws], [tr], [post] whitespace runs containing at most one newline
-    (never a paragraph break).  NOT covered (stages (d), (e)): comments,
-    paragraph breaks, optional star / bracket arguments, single-token
+    (never a paragraph break).  NOT covered (rest of stage (d), stage (e)):
+    paragraph breaks, a comment ending at the end of input, optional star / bracket arguments, single-token
     arguments, whitespace before an argument, environments, specials,
     [$$ … $$], verbatim.
 
@@ -90,7 +92,7 @@ Print Assumptions C02_tree_whitespace_irrelevant_partial.
 (** ** Non-vacuity *)
 Open Scope N_scope.
 
-(** [ab {c \textbf{x $y$} }\alpha z\(q\)\n\frac{1}{ } ] — nested groups, a
+(** [ab {c %x{$\n \textbf{x $y$} }\alpha z\(q\)\n\frac{1}{ } ] — nested groups, a comment, a
     one-argument macro whose argument contains inline math, a zero-argument
     control word with post-space, [\( \)], a two-argument macro, trailing
     whitespace — under the generated default context *)
@@ -98,7 +100,8 @@ Definition c02_doc : doc :=
   {| d_items :=
        [Text [] [97;98];
         Grp [32] [Text [] [99];
-                  Mac [32] [116;101;120;116;98;102] []
+                  Cmt [32] [120;123;36] [10;32];
+                  Mac [] [116;101;120;116;98;102] []
                       [Grp [] [Text [] [120]; Math [32] MDollar [Text [] [121]] []] []]] [32];
         Mac [] [97;108;112;104;97] [32] [];
         Text [] [122];
@@ -108,13 +111,13 @@ Definition c02_doc : doc :=
 
 Example C02_parse_unparse_nonvacuous :
   ok_doc default_ctx c02_doc = true /\
-  unparse c02_doc = [97;98;32;123;99;32;92;116;101;120;116;98;102;123;120;32;36;121;36;125;32;125;
+  unparse c02_doc = [97;98;32;123;99;32;37;120;123;36;10;32;92;116;101;120;116;98;102;123;120;32;36;121;36;125;32;125;
                      92;97;108;112;104;97;32;122;92;40;113;92;41;10;92;102;114;97;99;123;49;125;123;32;125;32] /\
   (* the theorem's conclusion, checked independently by evaluation *)
   parse_top (unparse c02_doc) false default_ctx (walker_state default_ctx)
   = Ok (ONode (Some (gen_nodelist 0 (fst (tree_of default_ctx (walker_state default_ctx) 0 c02_doc)))))
        (length (unparse c02_doc)) /\
-  (* and it is a non-trivial tree: eight top-level nodes, 48 characters *)
+  (* and it is a non-trivial tree: eight top-level nodes, 54 characters *)
   length (fst (tree_of default_ctx (walker_state default_ctx) 0 c02_doc)) = 8%nat.
 Proof. vm_compute. repeat split. Qed.
 
@@ -135,12 +138,13 @@ Example C02_side_conditions_needed :
   (ok_doc default_ctx bad3 = false /\ differs bad3 = true).
 Proof. vm_compute. repeat split. Qed.
 
-(** a whitespace variant of [c02_doc]: [ab  {c\n\textbf{x\t$y$}\n}\alpha\nz\(q\) \frac{1}{  }\n] *)
+(** a whitespace variant of [c02_doc]: [ab  {c\t%x{$\n\textbf{x\t$y$}\n}\alpha\nz\(q\) \frac{1}{  }\n] *)
 Definition c02_doc' : doc :=
   {| d_items :=
        [Text [] [97;98];
         Grp [32;32] [Text [] [99];
-                  Mac [10] [116;101;120;116;98;102] []
+                  Cmt [9] [120;123;36] [10];
+                  Mac [] [116;101;120;116;98;102] []
                       [Grp [] [Text [] [120]; Math [9] MDollar [Text [] [121]] []] []]] [10];
         Mac [] [97;108;112;104;97] [10] [];
         Text [] [122];
